@@ -105,6 +105,72 @@ theorem rolling_mem_row (w : Nat) (hw : 1 ≤ w) (f : List α → β) (rows : Li
   rw [List.getElem?_range (by omega)]
   rfl
 
+/-! ### `mode="same"` -/
+
+/-- how many leading entries `row[s:] = 0` leaves untouched -/
+def keepLen (l : Nat) : Option Int → Nat
+  | none => l
+  | some s => startIdx l s
+
+theorem zeroFrom_eq (zero : β) (s : Option Int) (row : List β) :
+    zeroFrom zero s row = row.take (keepLen row.length s) ++ List.replicate (row.length - keepLen row.length s) zero := by
+  cases s with
+  | none => simp [zeroFrom, keepLen]
+  | some s => rfl
+
+theorem rewrapFull_same (w : Nat) (hw : 1 ≤ w) (s : Option Int) (hs : ∀ l, keepLen l s = l - (w - 1))
+    (f : List α → β) (zero : β) (rows : List (List α)) (extra : List β)
+    (hlen : (windows w f rows.flatten ++ extra).length = rows.flatten.length) :
+    (rewrapFull (rows.map List.length) (windows w f rows.flatten ++ extra)).map (zeroFrom zero s) =
+      specSame w f zero rows := by
+  induction rows generalizing extra with
+  | nil => simp [rewrapFull, specSame]
+  | cons r rs ih =>
+    simp only [List.flatten_cons, List.length_append] at hlen
+    simp only [List.map_cons, List.flatten_cons, rewrapFull, specSame]
+    have hwl := windows_length w f (r ++ rs.flatten)
+    simp only [List.length_append] at hwl
+    congr 1
+    · rw [zeroFrom_eq, hs]
+      have hrow : ((windows w f (r ++ rs.flatten) ++ extra).take r.length).length = r.length := by
+        rw [List.length_take, List.length_append]; omega
+      rw [hrow, List.take_take, Nat.min_eq_left (by omega),
+        List.take_append_of_le_length (by rw [hwl]; omega), windows_append_take w hw]
+      congr 2
+      omega
+    · rw [List.drop_append, windows_append_drop]
+      apply ih
+      rw [List.length_append, List.length_drop, windows_length]
+      rw [windows_length] at hlen
+      simp only [List.length_append] at hlen
+      omega
+
+theorem keepLen_sameStartNew (w : Nat) (hw : 1 ≤ w) (l : Nat) : keepLen l (sameStartNew w) = l - (w - 1) := by
+  unfold sameStartNew
+  split
+  · have : w = 1 := by omega
+    subst this; simp [keepLen]
+  · simp only [keepLen, startIdx]
+    have : (-(w : Int) + 1) < 0 := by omega
+    simp only [this, if_true]
+    omega
+
+/-- **C13.rolling_same** — `rolling_window(..., mode="same")`: for every ragged input, every `w ≥ 1`,
+every window function and WHATEVER the function returns on the `w-1` trailing windows that run past
+the buffer, every row comes back with its own length: the values of the windows that fit inside
+the row, then zeros. -/
+theorem rolling_same (w : Nat) (hw : 1 ≤ w) (f : List α → β) (zero : β) (tail : List β) (rows : List (List α))
+    (htail : (windows w f rows.flatten ++ tail).length = rows.flatten.length) :
+    rollingSame w f zero tail rows = specSame w f zero rows :=
+  rewrapFull_same w hw _ (keepLen_sameStartNew w hw) f zero rows tail htail
+
+/-- the shipped `out[..., (-w+1):] = 0` zeroes EVERYTHING for `w = 1`: recorded refutation -/
+theorem rollingSameOld_w1_unsound :
+    rollingSameOld 1 (fun (win : List Nat) => win == [2]) false [] [[1, 1, 2, 1], [2, 2]] =
+      [[false, false, false, false], [false, false]] ∧
+    specSame 1 (fun (win : List Nat) => win == [2]) false [[1, 1, 2, 1], [2, 2]] =
+      [[false, false, true, false], [true, true]] := by decide
+
 /-! ### k-mer code -/
 
 theorem powers_succ (n k : Nat) : powers n (k + 1) = 1 :: (powers n k).map (n * ·) := by
@@ -476,6 +542,8 @@ end pwm
 
 /-! ### non-vacuity -/
 example : rolling 2 (fun (w : List Nat) => w) [[1, 2, 3], [], [4], [5, 6]] = [[[1, 2], [2, 3]], [], [], [[5, 6]]] := by decide
+example : rollingSame 2 (fun (win : List Nat) => win == [1, 2]) false [false] [[0, 1, 2], [1], [1, 2]] =
+    [[false, true, false], [false], [true, false]] := by decide
 example : getKmers 4 1 [[0, 3], [2]] = [[0, 3], [2]] := by decide +kernel
 example : getKmersOld 4 1 [[0, 3], [2]] = [[], []] := by decide +kernel
 example : getKmersPacked 2 [[0, 1, 2, 3], [3], [1, 0]] = [[4, 9, 14], [], [1]] := by decide +kernel
